@@ -5,24 +5,24 @@ props=[json.loads(l) for l in open('/verif/properties.jsonl')]
 tech={
  'C01':'must-lockset dataflow + same-critical-section CFG queries + value-origin slices + buffer-alias taint + use-after-release typestate over go/ssa',
  'C02':'completion-entitlement analysis: CFG path queries (register-fact pruned) from table lookup/registration to every done()/Error site, must-lockset, interprocedural hand-off summaries',
- 'C03':'flag/table rendez-vous via must-lockset + guard dominance, must-pass-through on reader/sender exits, drain-before-sweep CFG ordering',
+ 'C03':'flag/table rendez-vous via must-lockset + guard dominance, must-pass-through on reader/sender exits, drain-before-sweep CFG ordering; lock acquire/release balance (may/must lockset), lock discipline of the shared per-listener table',
  'C04':'exactly-one path counting by CFG reachability (at-most-once / must-pass-through) along the request path, no-retry loop check, use-after-release typestate',
- 'C05':'queue-discipline lint over go/ssa: constant worker counts, guard dominance of inline vs queued dispatch, same-critical-section of read and dispatch',
- 'C06':'failure-edge must-pass-through, error-text origin slice, buffer-alias taint, guard dominance of reply decoding',
- 'C07':'writer/reader/specification table extraction from SSA constants (tags, shifts, masks, field order, thresholds), size-bound sums, capacity-guard dominance of reslices, go/types interface checks',
- 'C08':'recover-barrier dominance + trace-partitioned abstract interpretation (nil-ness / zero-Value) of the server request path over all 32 upgrade-flag bytes + teardown CFG ordering; thorough: compiler bounds-check-elimination facts',
- 'C09':'CFG ordering (ack before handler start), self-disabling-branch check in the response reader, value-origin slices for stream routing, queue/lock discipline lint, alias taint',
- 'C10':'typestate/lockset checks of the stream stop protocol, must-pass-through on reader exit, sibling effect-set comparison of the two server teardown sequences',
+ 'C05':'queue-discipline lint over go/ssa: constant worker counts, guard dominance of inline vs queued dispatch, same-critical-section of read and dispatch; non-nil guard dominance of every optional scheduler',
+ 'C06':'failure-edge must-pass-through, error-text origin slice, buffer-alias taint, guard dominance of reply decoding; guard dominance of the ErrShutdown sentinel by the shutdown-text test',
+ 'C07':'writer/reader/specification table extraction from SSA constants (tags, shifts, masks, field order, thresholds), size-bound sums, capacity-guard dominance of reslices, go/types interface checks; shape check of every inlined LEB128 writer loop against the documented varint encoding and of the per-field offset advance of the code header',
+ 'C08':'recover-barrier dominance + trace-partitioned abstract interpretation (nil-ness / zero-Value) of the server request path over all 32 upgrade-flag bytes + teardown CFG ordering; thorough: compiler bounds-check-elimination facts; wait-group count/discount discipline (constant, dominance, deferred Done)',
+ 'C09':'CFG ordering (ack before handler start), self-disabling-branch check in the response reader, value-origin slices for stream routing, queue/lock discipline lint, alias taint; FIFO queue discipline of stream.events (take-head/pop in one critical section, decode on every path), message-carrying checks for events and stream writes, stability of the long-lived stream context',
+ 'C10':'typestate/lockset checks of the stream stop protocol, must-pass-through on reader exit, sibling effect-set comparison of the two server teardown sequences; condition-variable wiring, poll-mode teardown election (EOF edges must-pass the compare-and-swap)',
  'C11':'field-based buffer-alias taint with guard-dominated exemptions + use-after-release / ownership-transfer typestate over go/ssa',
  'C12':'sibling agreement of option-resolution signatures (guard dominance of registry vs constructor), call-graph funnel counts, header field-mapping agreement of encoder and default arms',
- 'C13':'invariant by enumeration of mutation sites: must-lockset, guard dominance of every pool growth/dial, must-pass-through pairing of removals, writer table for the limit fields',
- 'C14':'value-origin slices for addresses, must-pass-through of the alive re-check on every pooled hand-out path, must-pass-through of checkPersistConnErr in every call form, return-origin check for ErrDial',
- 'C15':'guard dominance of closes/removals by NumCalls()==0, must-pass-through in Transport.Close, select-arm exit of housekeeping, lockset+origin check of NumCalls',
+ 'C13':'invariant by enumeration of mutation sites: must-lockset, guard dominance of every pool growth/dial, must-pass-through pairing of removals, writer table for the limit fields; handed-out connections must-pass list insertion, containers dropped only under an emptiness guard, default normalisation in the once-initialiser',
+ 'C14':'value-origin slices for addresses, must-pass-through of the alive re-check on every pooled hand-out path, must-pass-through of checkPersistConnErr in every call form, return-origin check for ErrDial; dial-result edge discipline (error edge returns no connection, success edge hands it out)',
+ 'C15':'guard dominance of closes/removals by NumCalls()==0, must-pass-through in Transport.Close, select-arm exit of housekeeping, lockset+origin check of NumCalls; guard dominance of retire/close by the KeepAlive / IdleConnTimeout tests, loop-shape checks of the drain loops',
  'C16':'must-lockset, same-critical-section of Update and of the live-list rebuild, value-origin slices of list elements and of every address handed to the RoundTripper',
- 'C17':'value-origin slices of scheduled picks, must-pass-through cursor advance, dominance of heapify, guard dominance of the probe arm (numeric behaviour declared undecided)',
+ 'C17':'value-origin slices of scheduled picks, must-pass-through cursor advance, dominance of heapify, guard dominance of the probe arm (numeric behaviour declared undecided); latency recorded on every path of target.Update from the measured sample',
  'C18':'flag/table rendez-vous (lockset + guard dominance) for waiters, select-arm analysis with timer origin, must-pass-through wake-ups, return-origin checks of error forms',
  'C19':'select-arm CFG analysis of CallWithContext, recycle typestate, capacity-guard dominance, parameter-origin check of ctx forwarding',
- 'C20':'must-pass-through pairing of scheduler.New/Close, loop-exit reachability of goroutine bodies, CAS guard dominance of close(ch), return-origin checks of Close results',
+ 'C20':'must-pass-through pairing of scheduler.New/Close, loop-exit reachability of goroutine bodies, CAS guard dominance of close(ch), return-origin checks of Close results; lock balance, shared-table lock discipline, done channel closed on the winning non-nil edge',
 }
 built=sorted(tech)
 checks=[]
